@@ -652,14 +652,20 @@ pub fn replica_state(rep: &Replica, opts: &KeyOpts) -> Value {
             .map(|(k, v)| json!([k, sha_hex(v)]))
             .collect();
         let mut trees = Map::new();
+        // the caches every revision tree derives from its revisions (live leaves, winner): a pure
+        // function of the tree when the code is right, so they split no state then; when a mutation
+        // path forgets to refresh them the stale state must not be merged with the fresh one
+        let mut derived = Map::new();
         for uuid in m.get_all_objects() {
             let t = m.verif_dump_tree(&uuid);
             trees.insert(uuid.clone(), json!(t));
+            derived.insert(uuid.clone(), json!([m.get_winner(&uuid).ok(), m.verif_leafs(&uuid)]));
         }
         let stage = m.verif_stage_keys();
         let mut v = json!({
             "store": store,
             "trees": trees,
+            "derived": derived,
             "stage": stage,
             "deltas": m.verif_delta_status(),
             "packs": m.verif_applied_packs(),
